@@ -841,7 +841,13 @@ class _Env:
             if isinstance(op, (ast.Is, ast.IsNot)):
                 l2 = None if (isinstance(l, Sym) and l.kind == 'builtin' and l.name == 'None') else l
                 r2 = None if (isinstance(r, Sym) and r.kind == 'builtin' and r.name == 'None') else r
-                res = fn(l2, r2)
+                # an abstract stand-in may denote a builtin / external object (``_denotes``): identity with that object
+                l2 = getattr(l2, '_denotes', l2) if isinstance(l2, AObj) and isinstance(r2, Sym) else l2
+                r2 = getattr(r2, '_denotes', r2) if isinstance(r2, AObj) and isinstance(l2, Sym) else r2
+                if isinstance(l2, Sym) and isinstance(r2, Sym):
+                    res = (l2 == r2) if isinstance(op, ast.Is) else (l2 != r2)      # a name denotes one object
+                else:
+                    res = fn(l2, r2)
             else:
                 try:
                     res = fn(l, r)
